@@ -107,7 +107,8 @@ fn var_value(var: usize, class: u8) -> Option<String> {
         1 => Some(String::new()),
         2 => Some("  ".to_string()),
         // scheme names are case-insensitive: some variables spell theirs in upper or mixed case
-        3 => Some(format!("{}://{up}-{name}.test:3128", if var == 1 || var == 4 { "HTTP" } else { "http" })),
+        // (two of the variables carry credentials: userinfo is case-sensitive and part of the proxy URL that is selected)
+        3 => Some(format!("{}://{}{up}-{name}.test:3128", if var == 1 || var == 4 { "HTTP" } else { "http" }, if var == 0 || var == 3 { "Alice:S3cReT-Xyz@" } else { "" })),
         4 => Some(format!("{}://{up}-{name}.test", if var == 2 || var == 5 { "Https" } else { "https" })),
         5 => Some("socks5://socks.test:1080".to_string()),
         // neither a URL nor an http(s) one: a different spelling per variable (scheme-less host:port pairs and bare hosts included)
